@@ -528,7 +528,12 @@ fn keyfail_case(rng: &mut Rng, case: u64, dir: &str, plan: &Arc<Plan>) -> (Strin
         }
         let _ = std::fs::remove_file(&copy);
     };
+    // a copy of a file that is being written is not a crash image: hold the periodic flusher and
+    // let the passes in flight finish (this flush fails like the first one) before copying
+    feoxdb::verif::dev::set_periodic_flush_paused(true);
+    let _ = store.flush();
     recover("the-device-as-it-stands-during-the-failure", &[&old, &latest], &mut verdict);
+    feoxdb::verif::dev::set_periodic_flush_paused(false);
     // the device accepts the record again
     *plan.refuse_key.lock().unwrap() = None;
     let mut healed = Vec::new();
